@@ -1,5 +1,5 @@
 // Harness `anyid` (C18): AnyId algebraic laws over mixed value types incl. digest collisions, and dispatch through
-// std::map / std::unordered_map keyed by AnyId. Exhaustive over pairs/triples of a 24-value pool per configuration.
+// std::map / std::unordered_map keyed by AnyId. Exhaustive over pairs/triples of a 26-value pool per configuration.
 #include <eventpp/utilities/anyid.h>
 #include <eventpp/eventdispatcher.h>
 
@@ -52,7 +52,7 @@ struct OpaqueStorage
 };
 
 // the value pool: mixed types chosen to collide (int 5 / long 5 / unsigned 5 / Color green, values equal mod 4, equal strings, "")
-const int kPool = 24;
+const int kPool = 26;
 struct Val { int type; long num; const char * str; };
 const Val kVals[kPool] = {
 	{ 0, 5, nullptr }, { 0, 9, nullptr }, { 0, 0, nullptr }, { 0, -1, nullptr }, { 0, 1, nullptr },
@@ -63,6 +63,9 @@ const Val kVals[kPool] = {
 	{ 5, 5, nullptr }, { 5, 1, nullptr },
 	{ 6, 0, "" }, { 6, 0, "a" }, { 6, 0, "a" }, { 6, 0, "5" }, { 6, 0, "a long string that lives on the heap, variant A" },
 	{ 7, 5, nullptr }, { 7, 9, nullptr }, { 7, 5, nullptr },
+	// digests spread over the whole range of size_t (std::hash of a long is the value): 0, 6e18 and 12e18 are pairwise less
+	// than half the range apart "going round", which an ordering by wrapped difference turns into a cycle
+	{ 1, 6000000000000000000l, nullptr }, { 1, -6446744073709551616l, nullptr },
 };
 
 template <typename Id> Id makeId(int i)
@@ -265,7 +268,7 @@ std::string enumerate(const std::string &, const std::function<bool (const Progr
 			if(! sink(p)) return "aborted at the first failure";
 		}
 	}
-	return "9 configurations (3 digesters x 3 storages) x all 24^2 pairs and 24^3 triples of the value pool, plus dispatches of every id against registered triples";
+	return "9 configurations (3 digesters x 3 storages) x all 26^2 pairs and 26^3 triples of the value pool, plus dispatches of every id against registered triples";
 }
 
 } // namespace
